@@ -1134,6 +1134,215 @@ def operator_stream(ctx, deep=False, model=True):
 
 
 # ---------------------------------------------------------------------------
+# HISTORY stream: one kwargs dict / one operator / one input / one `out` reused across steps
+
+def history_scenarios(ctx, count):
+    rng = ctx.rng
+    for _ in range(count):
+        ndim = rng.choice([1, 1, 2])
+        axes = []
+        mode = rng.choice(MODES)
+        for ax in range(ndim):
+            n = rng.randint(3, 5)
+            lim = {'periodic': n, 'symmetric': n - 1}.get(mode, 3)
+            l, r = rng.randint(0, lim), rng.randint(0, lim)
+            if l + r == 0:
+                l = 1
+            grow = rng.random() < 0.7
+            axes.append(dict(n=n, l=l, r=r, grow=grow, m2=rng.randint(1, n - 1),
+                             o2=0, lo=rng.randint(-4, 4), cell=rng.choice([0.25, 0.5, 1.0])))
+            axes[-1]['o2'] = rng.randint(0, n - axes[-1]['m2'])
+        opts = {}
+        if rng.random() < 0.7:
+            opts['dtype'] = rng.choice(['float32', 'float32', 'complex128'])
+        if rng.random() < 0.5:
+            opts['weighting'] = rng.choice([2.0, 0.5, 4.0])
+        if rng.random() < 0.4:
+            opts['exponent'] = rng.choice([1.0, 2.0])
+        if rng.random() < 0.5:
+            opts['nodes_on_bdry'] = True
+        if not opts:
+            opts['dtype'] = 'float32'
+        yield dict(kind='history', mode=mode, axes=axes, opts=opts,
+                   steps=rng.randint(2, 4), vseed=rng.getrandbits(32))
+
+
+def run_history(ctx, sc, lines, answers, owners):
+    """Returns problems [(tag, text)]; appends model lines."""
+    import odl
+    problems = []
+
+    def bad(tag, text):
+        problems.append((tag, text))
+    mode, axes = sc['mode'], sc['axes']
+    ndim = len(axes)
+    r = random.Random(sc['vseed'])
+    n = [a['n'] for a in axes]
+    m = [a['n'] + a['l'] + a['r'] if a['grow'] else a['m2'] for a in axes]
+    offs = [a['l'] if a['grow'] else a['o2'] for a in axes]
+    lo = [float(a['lo']) for a in axes]
+    hi = [a['lo'] + a['n'] * a['cell'] for a in axes]
+    try:
+        dom = odl.uniform_discr(lo, hi, n)
+        # ---- (1) one discr_kwargs dict for several constructions
+        kw = dict(sc['opts'])
+        kw_before = dict(kw)
+        ops = []
+        for step in range(sc['steps']):
+            shp = m if step % 2 == 0 else [mm + 1 for mm in m]
+            of = offs if step % 2 == 0 else None
+            ctx.case(None)
+            ctx.hit('history/kwargs-reuse')
+            try:
+                op = odl.ResizingOperator(dom, ran_shp=shp, offset=of, pad_mode=mode,
+                                          discr_kwargs=kw)
+            except ValueError as e:
+                if '`weighting.exponent` conflicts with `exponent`' in str(e) and \
+                        kw_before.get('exponent', 2.0) != 2.0 and 'weighting' not in kw_before:
+                    bad('exponent-conflict', 'ResizingOperator(space, ran_shp=..., discr_kwargs={}) '
+                        'raises ValueError: {}'.format(kw_before, str(e)[:100]))
+                    break
+                raise
+            if kw != kw_before:
+                bad('kwargs-mutated', 'step {}: the caller\'s discr_kwargs dict was changed from '
+                    '{} to {}'.format(step + 1, kw_before, kw))
+                kw = dict(kw_before)      # continue the scenario with the intended options
+            ran = op.range
+            want_dtype = np.dtype(kw_before.get('dtype', dom.dtype))
+            want_exp = kw_before.get('exponent', dom.exponent)
+            want_w = kw_before.get('weighting', None)
+            got = (ran.dtype, ran.exponent, float(getattr(ran.weighting, 'const', np.nan)))
+            if ran.dtype != want_dtype or ran.exponent != want_exp or \
+                    (want_w is not None and got[2] != want_w) or \
+                    (want_w is None and got[2] != float(dom.weighting.const)):
+                bad('range-options', 'construction {} with discr_kwargs={}: range has dtype {}, '
+                    'exponent {}, weighting {}'.format(step + 1, kw_before, *got))
+            nob = bool(kw_before.get('nodes_on_bdry', False))
+            if [tuple(b) for b in ran.partition.nodes_on_bdry_byaxis] != [(nob, nob)] * ndim and \
+                    all(s_ >= 2 for s_ in shp):
+                bad('range-options', 'construction {}: nodes_on_bdry of the range is {}'.format(
+                    step + 1, ran.partition.nodes_on_bdry_byaxis))
+            ops.append(op)
+        if len(ops) >= 3 and ops[0].range != ops[2].range:
+            bad('range-history', 'the same construction repeated with the same dict gives another '
+                'range: {} then {}'.format(ops[0].range, ops[2].range))
+        # ---- (2) one operator, one input, one `out`, several calls
+        op = odl.ResizingOperator(dom, ran_shp=m, offset=offs, pad_mode=mode)
+        ran = op.range
+        x = rand_data(r, tuple(n), 'float64')
+        y = rand_data(r, tuple(m), 'float64')
+        xe, ye = dom.element(x), ran.element(y)
+        exp = expected_forward(x, tuple(m), offs, mode, 0)
+        fbuf, abuf = ran.element(), dom.element()
+        fbuf.asarray()  # touch
+        WR = tensor_weights(ran) * bdry_weights(ran)
+        WD = tensor_weights(dom) * bdry_weights(dom)
+        st, raw = call_resize(dict(newshape=n, off=offs, mode=mode, c=0, dir='adjoint'), WR * y)
+        aexp = raw / WD if st == 'ok' else None
+        first_f = first_a = None
+        for step in range(sc['steps'] + 1):
+            ctx.case(None)
+            ctx.hit('history/operator-reuse')
+            variant = ['plain', 'out', 'out', 'fresh-property'][step % 4]
+            if variant == 'out':
+                f = op(xe, out=fbuf)
+                a = op.adjoint(ye, out=abuf)
+                if f is not fbuf or a is not abuf:
+                    bad('call-out', 'step {}: out not returned'.format(step + 1))
+            else:
+                f = op(xe)
+                a = op.adjoint(ye)
+            f, a = f.asarray().copy(), a.asarray().copy()
+            if exp is None or ilist(f) != ilist(exp):
+                bad('forward-history', 'step {} ({}): op(x) differs from the np.pad-style '
+                    'expectation'.format(step + 1, variant))
+            if aexp is None or ilist(a) != ilist(aexp):
+                bad('adjoint-history', 'step {} ({}): adjoint(y) = {} differs from W_dom^-1 R^T '
+                    'W_ran y = {}'.format(step + 1, variant, a.ravel().tolist()[:6],
+                                         None if aexp is None else aexp.ravel().tolist()[:6]))
+            if first_f is None:
+                first_f, first_a = f, a
+            elif ilist(f) != ilist(first_f) or ilist(a) != ilist(first_a):
+                bad('not-repeatable', 'step {} ({}): the same call on the same operator and input '
+                    'gives another result than the first time'.format(step + 1, variant))
+            if ilist(xe.asarray()) != ilist(x) or ilist(ye.asarray()) != ilist(y):
+                bad('input-modified', 'step {} ({}): the input element was modified'.format(
+                    step + 1, variant))
+                xe, ye = dom.element(x), ran.element(y)
+        inv1, inv2 = op.inverse, op.inverse
+        if all(a_['grow'] for a_ in axes):
+            for k, inv in enumerate((inv1, inv2, inv1)):
+                if ilist(inv(op(xe)).asarray()) != ilist(x):
+                    bad('inverse-history', 'inverse taken/applied the {}. time: inverse(op(x)) != x'
+                        .format(k + 1))
+        if op.adjoint.adjoint is not op:
+            bad('adjoint-adjoint', 'adjoint.adjoint is not the operator')
+        # model: forward result and adjoint result of the LAST step
+        lines.append('resize mode={} dir=forward shape={} newshape={} off={} c=0 data={}'.format(
+            mode, fl(n), fl(m), fl(offs), fl(x.ravel().tolist())))
+        answers.append('ok r=' + fl(f.ravel().tolist()))
+        owners.append(sc)
+        lines.append('opadjnd mode={} shape={} newshape={} off={} wr={} wd={} data={}'.format(
+            mode, fl(m), fl(n), fl(offs), fl(WR.ravel().tolist()), fl(WD.ravel().tolist()),
+            fl(y.ravel().tolist())))
+        answers.append('ok r=' + fl(a.ravel().tolist()))
+        owners.append(sc)
+        # ---- (3) resize_array: one input array and one `out` across modes and directions
+        arr = rand_data(r, tuple(n), 'int64')
+        arr0 = arr.copy()
+        outs = {}
+        for step in range(sc['steps'] + 2):
+            ctx.case(None)
+            ctx.hit('history/array-reuse')
+            md = MODES[(MODES.index(mode) + step) % len(MODES)]
+            d = 'forward' if step % 3 != 2 else 'adjoint'
+            case = dict(kind='array', mode=md, dir=d, shape=list(n), newshape=list(m),
+                        off=list(offs), c=0, dtype='int64', outkind='none', vseed=sc['vseed'] + step)
+            out = outs.setdefault(tuple(m), np.full(tuple(m), 55, dtype='int64'))
+            try:
+                res = resize_array(arr, tuple(m), offset=offs, pad_mode=md, direction=d, out=out)
+                status = 'ok'
+            except Exception as e:  # noqa
+                res, status = None, err_kind(e)
+            if ilist(arr) != ilist(arr0):
+                bad('array-input-modified', 'step {} ({} {}): the reused input array was modified'
+                    .format(step + 1, md, d))
+                arr = arr0.copy()
+            for pr in oracle_array(case, arr0.copy(), status,
+                                   None if res is None else res.copy(), False):
+                bad('array-history', 'step {} ({} {} into a reused out): {}'.format(
+                    step + 1, md, d, pr))
+            lines.append('resize mode={} dir={} shape={} newshape={} off={} c=0 data={}'.format(
+                md, d, fl(n), fl(m), fl(offs), fl(arr0.ravel().tolist())))
+            answers.append(status if res is None else 'ok r=' + fl(res.ravel().tolist()))
+            owners.append(sc)
+    except Exception as e:  # noqa
+        bad('exception', 'unexpected {}: {}'.format(type(e).__name__, str(e)[:200]))
+    return problems
+
+
+def history_stream(ctx, deep=False, model=True):
+    count = 40 if (ctx.quick and not deep) else 300
+    lines, answers, owners = [], [], []
+    for sc in history_scenarios(ctx, count):
+        problems = run_history(ctx, sc, lines, answers, owners)
+        seen = set()
+        for tag, text in problems:
+            if tag not in seen:
+                seen.add(tag)
+                ctx.violation('history {} mode={} ndim={} options={}'.format(
+                    tag, sc['mode'], len(sc['axes']), ','.join(sorted(sc['opts']))),
+                    text[:600], dict(sc, tag=tag))
+    if model and lines:
+        outs = core.run_driver('C16', lines)
+        for line, impl, ans, sc in zip(lines, answers, outs, owners):
+            ctx.hit('history-model')
+            if impl != ans:
+                ctx.disagree({'kind': 'history', 'line': line[:300], 'case': sc}, impl[:300],
+                             ans[:300], stream='history')
+
+
+# ---------------------------------------------------------------------------
 
 def regenerate(ctx):
     try:
@@ -1157,6 +1366,7 @@ def run(ctx):
     nppad_stream(ctx)
     array_stream(ctx)
     operator_stream(ctx)
+    history_stream(ctx)
     # coverage of the model's branches by this run (a silent loss of coverage must be visible)
     expected = ['{}/{}/{}'.format(m, d, c) for m in MODES for d in DIRS
                 for c in ('grow', 'shrink', 'same')]
@@ -1166,6 +1376,8 @@ def run(ctx):
     expected += ['reference/' + m for m in MODES] + ['discr-model', 'opadj-model', 'opadjnd-model', 'offsp-model',
                  'operator/one-cell-axis', 'operator/ndim=3']
     expected += ['operator/inconsistent/' + k for ks in BAD_KINDS.values() for k in ks]
+    expected += ['history/kwargs-reuse', 'history/operator-reuse', 'history/array-reuse',
+                 'history-model']
     expected_err = ['err:offset', 'err:padconst-adjoint', 'err:order0-empty', 'err:order1-short',
                     'err:periodic-too-long', 'err:symmetric-too-long']
     unhit = [b for b in expected if not ctx.branches.get(b)] + \
@@ -1184,6 +1396,7 @@ def search(ctx, broken):
     try:
         array_stream(ctx, deep=True, model=False)
         operator_stream(ctx, deep=True, model=False)
+        history_stream(ctx, deep=True, model=False)
     finally:
         ctx.tier = saved
 
@@ -1202,6 +1415,10 @@ def replay(ctx, case):
         return '; '.join(problems) if problems else None
     if case.get('kind') == 'operator':
         problems, _, _ = run_op_case(ctx, case)
+        problems = [t for tag, t in problems if case.get('tag') in (None, tag)]
+        return '; '.join(problems) if problems else None
+    if case.get('kind') == 'history':
+        problems = run_history(core.Ctx(ctx.pid, ctx.tier, ctx.seed), case, [], [], [])
         problems = [t for tag, t in problems if case.get('tag') in (None, tag)]
         return '; '.join(problems) if problems else None
     if case.get('kind') == 'malformed':
